@@ -53,6 +53,7 @@ def check(run, project):
     f1_f2(run, project)
     f3(run, project)
     c10.t2(run, project)
+    f7(run, project)
     f5(run, project, L)
     f6(run, project)
     run.floor("F1", 20)
@@ -393,3 +394,46 @@ def f6(run, project):
         ws = [t for t, b in if_chain(hi[0][0]) if t is not None and norm(t) == "b in VALID_WS"]
         run.ob("F6", len(ws) == 1, "whitespace between pairs is skipped", "whitespace handling changed", module=mod, node=hi[0][0],
                func=fn.name, construct="scanner whitespace")
+
+
+def f7(run, project):
+    """an input that ends inside a digit pair is rejected: both text scanners have a ValueError exit that is taken
+    when the source is exhausted while a first digit is pending (hex: in the StopIteration handler of the second
+    pull; swtpm: the `b is None` branch of the low-nibble state)."""
+    mod = project.module(HEX)
+    fn = mod.function("parse_hex_string")
+    ok = False
+    for h in [h for h in ast.walk(fn) if isinstance(h, ast.ExceptHandler) and h.type is not None and norm(h.type) == "StopIteration"]:
+        if any(isinstance(r, ast.Raise) and r.exc is not None and (call_name(r.exc) or "") == "ValueError" for r in ast.walk(h)):
+            ok = True
+    # alternative shape: after the pairing loop, a pending digit raises
+    for r in [r for r in walk_no_nested(fn) if isinstance(r, ast.Raise) and r.exc is not None and (call_name(r.exc) or "") == "ValueError"]:
+        p = r._parent
+        if isinstance(p, ast.If) and not any(isinstance(x, (ast.For, ast.While)) for x in _ancestors(r, fn)) and \
+                any(isinstance(x, (ast.For, ast.While)) for x in fn.body[:fn.body.index(_top(r, fn))]):
+            ok = True
+    run.ob("F7", ok, "hex scanner: an unpaired trailing digit raises ValueError",
+           "parse_hex_string has no ValueError exit for an input that ends inside a digit pair: text with an odd number of digits is "
+           "decoded (the last digit silently dropped) instead of rejected", module=mod, node=fn, func=fn.name,
+           construct="unpaired digit exit")
+    sm = project.module(SWTPM)
+    sf = sm.function("parse_hex_string")
+    low = [s_ for s_ in ast.walk(sf) if isinstance(s_, ast.If) and norm(s_.test) == "state == STATE_WANT_LOW_NIBBLE"]
+    ok = False
+    if len(low) == 1 and low[0].body and isinstance(low[0].body[0], ast.If) and norm(low[0].body[0].test) == "b is None":
+        ok = any(isinstance(r, ast.Raise) and (call_name(r.exc) or "") == "ValueError" for r in low[0].body[0].body)
+    run.ob("F7", ok, "swtpm scanner: input ending inside a digit pair raises ValueError", "the low-nibble state no longer raises at end of input",
+           module=sm, node=low[0] if low else sf, func=sf.name, construct="swtpm unpaired digit exit")
+
+
+def _ancestors(node, stop):
+    p = getattr(node, "_parent", None)
+    while p is not None and p is not stop:
+        yield p
+        p = getattr(p, "_parent", None)
+
+
+def _top(node, fn):
+    while getattr(node, "_parent", None) is not fn:
+        node = node._parent
+    return node
